@@ -98,6 +98,46 @@ def call(mod, variant, client_factory, capture, kwargs):
         return {"ok": False, "exc": exc, "requests": capture.take()}
 
 
+def call_seq(steps, asynchronous, client_factory, capture):
+    """Run ``steps`` = [(fn, kwargs), ...] through ONE client object; -> [{"ok", "value"|"exc", "requests"}, ...]."""
+    capture.take()
+    client = client_factory()
+    out = []
+
+    def record(thunk):
+        try:
+            v = thunk()
+            out.append({"ok": True, "value": v, "requests": capture.take()})
+        except BaseException as exc:  # noqa: BLE001
+            if type(exc).__name__ == "CaseTimeout":
+                raise
+            out.append({"ok": False, "exc": exc, "requests": capture.take()})
+
+    if asynchronous:
+        async def run():
+            try:
+                for fn, kwargs in steps:
+                    try:
+                        v = await fn(client=client, **kwargs)
+                        out.append({"ok": True, "value": v, "requests": capture.take()})
+                    except Exception as exc:  # noqa: BLE001
+                        out.append({"ok": False, "exc": exc, "requests": capture.take()})
+            finally:
+                ac = getattr(client, "_async_client", None)
+                if ac is not None:
+                    await ac.aclose()
+        loop().run_until_complete(run())
+    else:
+        try:
+            for fn, kwargs in steps:
+                record(lambda fn=fn, kwargs=kwargs: fn(client=client, **kwargs))
+        finally:
+            sc = getattr(client, "_client", None)
+            if sc is not None:
+                sc.close()
+    return out
+
+
 def endpoint_module(sb, ep):
     return sb.mod(f"api.{ep['tag']}.{ep['module']}")
 
